@@ -215,6 +215,61 @@ def run_word(word, out):
                             out.fail('reject/side-effects',
                                      f'{where}: {trig} rejected but '
                                      f'{before} -> {r.snapshot()}')
+            elif kind == 'status':
+                # a busy worker asks whether to go on: "proceed" is the
+                # pipeline declaring itself active, which it may only do at
+                # rest in running (and for the worker's own revision)
+                import dawgie.context
+                import dawgie.pl.message as message
+
+                from .. import rig as rigmod
+                from .. import world
+
+                same = not (len(ev) > 1 and ev[1])
+                rev = dawgie.context.git_rev if same else 'some-other-revision'
+                sock = rigmod.LoopSocket(
+                    r.farm.Hand(world.Address('h9', 4002)))
+                message.send(message.make(typ=message.Type.status, rev=rev),
+                             sock)
+                fr = world.frames(sock.transport.data)
+                sock.close()
+                go = [m.type == message.Type.response and m.success
+                      for m in fr]
+                want = same and r.fsm.is_pipeline_active() and booted
+                if not r.fsm.is_pipeline_active():
+                    out.nontrivial = True
+                    out.label('status-poll-while-not-at-rest-in-running')
+                if len(fr) != 1 or bool(go[0]) != bool(want):
+                    out.fail('active/worker-told-wrongly',
+                             f'{where}: state={r.fsm.state} transitioning='
+                             f'{r.fsm.transitioning.name} same-revision='
+                             f'{same}: reply proceed={go}, expected {want}')
+            elif kind == 'reset':
+                # the operator's entry to the update edge (POST
+                # /api/cmd/reset): refused without any effect unless the
+                # pipeline is at rest in running
+                import dawgie.fe.api as api
+
+                active = r.fsm.is_pipeline_active()
+                before = r.snapshot()
+                try:
+                    res = api.cmd_reset(['true'] if ev[1] else None)
+                except transitions.MachineError as exc:
+                    out.fail('reject/reset-not-refused-before-acting',
+                             f'{where}: state={before[0]} -> {exc}')
+                    return
+                r.run_calls()
+                if not active:
+                    out.label('reset-refused')
+                    if busy:
+                        out.nontrivial = True
+                    if r.snapshot() != before:
+                        out.fail('reject/side-effects',
+                                 f'{where}: reset refused ({res!r:.80}) but '
+                                 f'{before} -> {r.snapshot()}')
+                else:
+                    updates += 1
+                    out.label('reset-accepted')
             elif kind == 'try':
                 trig = fsmrig.TRIGGERS[ev[1] % len(fsmrig.TRIGGERS)]
                 if (r.fsm.state, trig) not in ARCS:
@@ -291,6 +346,9 @@ _ev = st.one_of(
     st.tuples(st.just('guarded'), st.integers(0, 1)).map(list),
     st.just(['work']),
     st.just(['newrev']),
+    st.tuples(st.just('status'), st.sampled_from([0, 0, 0, 1])).map(list),
+    st.tuples(st.just('status'), st.sampled_from([0, 0, 0, 1])).map(list),
+    st.tuples(st.just('reset'), st.integers(0, 1)).map(list),
 )
 _word = st.fixed_dictionaries({
     'word': st.lists(_ev, min_size=2, max_size=24).map(
